@@ -1,6 +1,6 @@
 import argparse, json, os, sys, traceback
 from common import *
-import fam_map, fam_diff, fam_cursor, fam_flush, fam_faults, fam_store, fam_format, fam_load
+import fam_map, fam_diff, fam_cursor, fam_flush, fam_faults, fam_store, fam_format, fam_load, fam_race
 
 FAMILIES = {}
 FAMILIES.update({p: fam_map.check for p in fam_map.PROPS})
@@ -11,6 +11,7 @@ FAMILIES.update({p: fam_faults.check for p in fam_faults.PROPS})
 FAMILIES.update({p: fam_store.check for p in fam_store.PROPS})
 FAMILIES.update({p: fam_format.check for p in fam_format.PROPS})
 FAMILIES.update({p: fam_load.check for p in fam_load.PROPS})
+FAMILIES.update({p: fam_race.check for p in fam_race.PROPS})
 
 
 def main():
